@@ -66,6 +66,10 @@ def common_stats(trace, stats, sets):
                 cls = r.get("code") or r["kind"]
                 sets["transitions"].add(repr((prev, cls, st)))
             prev = st
+    if getattr(trace, "kmis", None):
+        stats["tracked_frame_differs_from_k2_arithmetic_intervals"] += len(trace.kmis)
+    if any(e.get("mech") == "g92_xyz_offset_sign" for e in trace.div_log):
+        stats["cases_with_k2_divergence"] += 1
     if trace.truncated:
         stats["truncated:" + trace.truncated.split(":")[0]] += 1
     if trace.diag:
